@@ -349,6 +349,7 @@ const logFormatDisconnected = "disconnected due to unsupported message type: %d 
 
 // Be executed asynchronously after readed message
 func (c *handlerCtx) handle() {
+	verifGate("handle.enter", c.sess)
 	if c.stat.Code() == CodeMtypeNotAllowed {
 		goto E
 	}
@@ -528,7 +529,9 @@ func (c *handlerCtx) handleCall() {
 	// reply call
 	c.setReplyBodyCodec(!c.stat.OK())
 	c.pluginContainer.preWriteReply(c)
+	verifGate("call.prereply", c.sess)
 	stat := c.writeReply(c.stat)
+	verifGate("call.postreply", c.sess)
 	if !stat.OK() {
 		if c.stat.OK() {
 			c.stat = stat
@@ -590,6 +593,7 @@ func (c *handlerCtx) bindReply(header Header) interface{} {
 
 	// unlock: handleReply
 	c.callCmd.mu.Lock()
+	verifGate("reply.bound", c.sess)
 	c.input.SetServiceMethod(c.callCmd.output.ServiceMethod())
 	c.swap = c.callCmd.swap
 	c.callCmd.inputBodyCodec = c.GetBodyCodec()
@@ -623,6 +627,7 @@ func (c *handlerCtx) handleReply() {
 		}
 		c.callCmd.result = c.input.Body()
 		c.stat = c.callCmd.stat
+		verifGate("reply.predone", c.sess)
 		c.callCmd.done()
 		c.callCmd.cost = time.Duration(c.sess.timeNow() - c.callCmd.start)
 		if enablePrintRunLog() {
